@@ -43,9 +43,30 @@ func history(r drv.Rand, idx int) *h.World {
 		case k < 8:
 			t := w.Present("opaque-at", "jwt-at")
 			c, ck := w.CredAround(t.Client, rt == opfix.Provider)
+			if r.Chance(1, 5) { // the token's owner (the one client in its audience) named without proof
+				owner := t.Client
+				if h.ClientByID(owner) == nil {
+					owner = drv.Pick(r, []string{"web", "web2", "native", "spa", "pkjwt"})
+				}
+				c, ck = w.Unproven(owner)
+			}
 			w.Tags["use="+t.Kind] = true
 			w.Tags["introspect-by="+ck] = true
-			w.Introspect(rt, c, t)
+			switch r.IntN(6) {
+			case 0: // the same request again with the proof left out (same instance, same token)
+				w.Introspect(rt, c, t)
+				w.Tags["seq=introspect-then-without-proof"] = true
+				w.Introspect(rt, w.Lesser(c), t)
+			case 1: // two callers on one token, in both orders: an answer is per (caller, token)
+				c2, ck2 := w.CredAround(t.Client, rt == opfix.Provider)
+				w.Tags["introspect-by="+ck2] = true
+				w.Tags["seq=introspect-two-callers"] = true
+				w.Introspect(rt, c, t)
+				w.Introspect(rt, c2, t)
+				w.Introspect(rt, c, t)
+			default:
+				w.Introspect(rt, c, t)
+			}
 		case k < 13:
 			t := w.Present()
 			c, ck := w.CredAround(t.Client, false)
@@ -53,6 +74,10 @@ func history(r drv.Rand, idx int) *h.World {
 			w.Tags["revoke="+t.Kind] = true
 			w.Tags["revoke-by="+ck] = true
 			w.Tags["hint="+hint] = true
+			if r.Chance(1, 3) { // used, revoked, used again: nothing remembered from before the revocation
+				w.Tags["seq=use-revoke-use"] = true
+				w.UseEverywhere(fixed, mixed, t)
+			}
 			w.Revoke(rt, c, t, hint)
 			w.UseEverywhere(fixed, mixed, t)
 		case k < 15:
@@ -63,7 +88,7 @@ func history(r drv.Rand, idx int) *h.World {
 				w.Tags["logout-hint="+hint.Kind] = true
 			}
 			if r.Chance(1, 3) {
-				cid = drv.Pick(r, []string{"web", "web2", "native", "nosuch"})
+				cid = drv.Pick(r, []string{"web", "web2", "native", "nosuch", "WEB", "web ", "web2/", "null"})
 			}
 			w.EndSession(rt, hint, cid)
 			if len(w.Pool) > 0 {
@@ -88,7 +113,7 @@ func main() {
 		wr.Add(emit.Case{Input: w.Input(), Observed: w.Observed(), Tags: w.TagList(), Human: w.Log})
 	}
 	err := wr.Close(emit.Meta{Property: "C08", Tier: cfg.Tier, Seed: cfg.Seed,
-		Rule: "one case = one history on a fresh provider (refstore; both routers share it): 1-3 code flows (clients web/native opaque, web2/spa JWT, webx/web2x with negative lifetimes = expired tokens; subjects incl. one with a colon), then 4-10 operations drawn from userinfo / introspect / revoke (owner, foreign, public, bad, no credentials; with and without token_type_hint) / end_session / token exchange / further flows, each use presenting an issued token (70%) or an adversarial string (bit flips, re-sealed under another key, forged plaintexts, raw ids, JWTs of another issuer / key / expired / tampered, garbage); every revocation and logout is followed by uses of the token at the other endpoints. Non-trivial = at least one request of the history was honoured (path class != 0); distinct = distinct (input, path class).",
+		Rule: "one case = one history on a fresh provider (refstore; both routers share it): 1-3 code flows (clients web/native opaque, web2/spa JWT, webx/web2x with negative lifetimes = expired tokens; subjects incl. one with a colon), then 4-10 operations drawn from userinfo / introspect / revoke (owner, foreign, public, bad, no credentials; with and without token_type_hint); callers at introspection / revocation / exchange present themselves as owner, foreign client, two identities, or name a registered client (confidential, public, private_key_jwt) without proving its credential (id only, empty / blank / keyword / near-miss secrets, near-miss ids, failing assertions); what the storage holds as secret of secret-less clients is a world dimension (empty string compared plainly, or unmatchable); sequences: introspection repeated without the proof, two callers on one token in both orders, use-revoke-use / end_session / token exchange / further flows, each use presenting an issued token (70%) or an adversarial string (bit flips, re-sealed under another key, forged plaintexts, raw ids, JWTs of another issuer / key / expired / tampered, garbage); every revocation and logout is followed by uses of the token at the other endpoints. Non-trivial = at least one request of the history was honoured (path class != 0); distinct = distinct (input, path class).",
 	})
 	if err != nil {
 		fmt.Fprintln(os.Stderr, err)
